@@ -8,7 +8,7 @@ from .. import gen
 from ..common import cnat, clist, coq_eval
 from ..impl import Impl
 
-GEN_FILES = ['Prange.v']
+GEN_FILES = ['TrianglesPrange.v']
 
 IMPORTS = ['Base.Util', 'Model.Bfs', 'Model.Topology']
 # rationals are returned as (numerator, denominator): Coq prints some Q values in decimal notation
